@@ -18,7 +18,7 @@ From BB Require Import BN Brute SpaceFacts TrapFacts PercolateFacts AttractorFac
   Strict PetriNet Control Meta FilterFacts PetriNetFacts TrappistFacts DiagramStruct DiagramSem1 DiagramCache
   DiagramDepth DiagramComplete Termination ControlFacts MetaFacts Candidates StrictFacts MinExpandFacts CandidatesFacts SymbolicTest SymbolicTestFacts Signed ReductionFacts ControlFacts2 Main Blocks BlocksFacts ObsFacts OwnerFacts CandidatesTerm
   PartialOwner BlockMath BlockComplete ASeeds ASeedsFacts LogChecks SkipRule SkipRuleFacts Names NamesFacts Perm PermFacts SCC SCCFacts SCCStruct ControlFacts3 SCCTerm FilterSym Main2 StrategyFacts ControlFacts4 SkipRuleFacts2 SCCComplete SCCAttr BlockComplete2 ControlFacts5 Iso SkipSem ControlFacts6.
-From BB Require Import PyLib PySrcBase PySrc PySrcFacts PyLibSd PySrcSdBase PySrcSdTarget PySrcSdTargetFacts PySrcEndToEndControl PyLib PyLibSd PyLibPerc PyLibCore PyLibControl PySrcControl PySrcControlFacts PySrcFindDriversFacts.
+From BB Require Import PyLib PySrcBase PySrc PySrcFacts PyLibSd PySrcSdBase PySrcSdTarget PySrcSdTargetFacts PySrcEndToEndControl PyLib PyLibSd PyLibPerc PyLibCore PyLibControl PySrcControl PySrcControlFacts PySrcFindDriversFacts PySrcControlCorollaries.
 
 Theorem C06_override_forces : forall (N : net) (S : space) (d m : list (option bool)), trap_space N S -> length d = nvars N -> length m = nvars N -> compatible d S -> subspace (percolate_b N (merge d S)) m = true -> forced (override N d) S m.
 Proof. exact override_forces. Qed.
@@ -71,6 +71,10 @@ Proof. exact py_intersect_spec. Qed.
 Theorem C06_control_after_any_plain_history : forall (fuel : nat) (N : net) (cfg : config) (target : list (option bool)) (d d' : sd) (all_strategy : bool) (maxd : option nat) (forbidden : list nat) (b : bool) (succ : list space) (ctl : list (list space)), 1 <= max_motifs cfg -> length target = nvars N -> PlainInv N d -> expand_to_target fuel N cfg d target None = (d', RBool true) -> In (succ, ctl, true) (succession_control_ff N d' target all_strategy maxd forbidden b) -> let spaces := chain N succ (top_space (nvars N)) in length ctl = length succ /\ (forall i : nat, i < length succ -> trap_space N (nth i spaces []) /\ trap_space N (nth (S i) spaces []) /\ subspace (nth (S i) spaces []) (nth i spaces []) = true /\ nth i ctl [] <> [] /\ (forall drv : space, In drv (nth i ctl []) -> subspace (percolate_b N (merge drv (nth i spaces []))) (nth i succ []) = true /\ forced (override N drv) (nth i spaces []) (nth i succ []))) /\ intersect (last spaces []) target <> None /\ (forall M : space, min_trap N M -> subspace M (last spaces []) = true -> subspace M target = true).
 Proof. exact control_after_plain_history_sound. Qed.
 
+(* C06 for the SOURCE TEXT of control.find_drivers: every override the generated function reports forces the motif from the assumed trap space *)
+Theorem C06_source_text_find_drivers_force : forall (N : net) (ts : list (option bool)) (strat : bool) (assume : space) (maxd : option nat) (forb : option (list nat)) (l : list space) (drv : space), trap_space N assume -> length ts = nvars N -> py_find_drivers N ts strat (Some assume) maxd forb = Some l -> In drv l -> forced (override N drv) assume ts.
+Proof. exact py_find_drivers_force. Qed.
+
 (* translator tie: control.find_drivers / drivers_of_succession as generated from the source compute the model's functions (whose reported overrides force the motif: find_drivers_force) *)
 Theorem C06_source_find_drivers : forall (N : net) (ts : list (option bool)) (strat : bool) (assume : option space) (maxd : option nat) (forb : option (list nat)), length ts = nvars N -> length (opt_space N assume) = nvars N -> py_find_drivers N ts strat assume maxd forb = Some (find_drivers N ts strat (opt_space N assume) maxd (opt_vars forb)).
 Proof. exact py_find_drivers_spec. Qed.
@@ -120,6 +124,7 @@ Print Assumptions C06_skip_feedforward_subset.
 Print Assumptions C06_source_is_subspace.
 Print Assumptions C06_source_intersect.
 Print Assumptions C06_control_after_any_plain_history.
+Print Assumptions C06_source_text_find_drivers_force.
 Print Assumptions C06_source_find_drivers.
 Print Assumptions C06_source_drivers_of_succession.
 Print Assumptions C06_source_text_end_to_end_control.
